@@ -27,18 +27,22 @@ import (
 	"os"
 	"os/exec"
 	"path/filepath"
-	"regexp"
 	"sort"
 	"strings"
 	"time"
 
+	"github.com/krotik/ecal/config"
 	"github.com/krotik/ecal/interpreter"
 	"github.com/krotik/ecal/parser"
 	"github.com/krotik/ecal/scope"
 )
 
 // the value universe of the property (index = position); `fn` is declared by the prelude
-var c06Universe = []string{"null", "true", "0", "-1", "1.5", "1e+300", `""`, `"a"`, `"1"`, "[]", "[1]", "{}", `{"a":1}`, "fn"}
+var c06Universe = []string{"null", "true", "0", "-1", "1.5", "1e+300", `""`, `"a"`, `"1"`, "[]", "[1]", "{}", `{"a":1}`, "fn",
+	"-0.5", "-1e+300", "(0/0)", "(1/0)"}
+
+// c06PlatformDuration: universe values whose conversion to a time.Duration is platform dependent (huge, NaN, Inf)
+var c06PlatformDuration = map[int]bool{5: true, 15: true, 16: true, 17: true}
 
 const c06Prelude = "func fn() {\n}\n"
 
@@ -105,6 +109,11 @@ func c06Indent(src string) string { return src }
 func c06Run(payload string) string {
 	f := strings.SplitN(payload, " ", 5)
 	switch f[0] {
+	case "K":
+		if os.Getenv("C06_CHILD") == "" {
+			return c06InChild(payload, false)
+		}
+		return c06RunConc(f)
 	case "X":
 		src := unhx(strings.SplitN(f[4], " ", 2)[0])
 		if (f[2] == "cyclic" || f[2] == "random") && os.Getenv("C06_CHILD") == "" {
@@ -112,34 +121,17 @@ func c06Run(payload string) string {
 			// Random programs can build a container that contains itself through aliases.
 			return c06InChild(payload, f[2] == "cyclic")
 		}
-		switch f[1] {
-		case "p":
-			_, out := c06Eval(src)
-			return c06Class(out)
-		case "t":
-			_, out := c06Eval("try {\n" + src + "\n} except {\nx.mark(1)\n}")
-			return c06Class(out)
-		case "s":
-			prog := "sink s1\n  kindmatch [\"k\"]\n{\n" + src + "\n}\nsink s2\n  kindmatch [\"k2\"]\n{\nx.mark(2)\n}\n" +
-				"r1 := addEventAndWait(\"e\", \"k\", {})\nr2 := addEventAndWait(\"e\", \"k2\", {})\n[r1, r2]"
-			res, out := c06Eval(prog)
-			if !strings.HasPrefix(out, "OK") {
-				return "SINKFAIL " + c06Class(out)
-			}
-			n := []int{-1, -1}
-			if l, ok := res.([]interface{}); ok && len(l) == 2 {
-				for i := range n {
-					if x, ok := l[i].([]interface{}); ok {
-						n[i] = len(x)
-					}
-				}
-			}
-			log := ""
-			if i := strings.Index(out, " LOG "); i >= 0 {
-				log = out[i+5:]
-			}
-			return fmt.Sprintf("SINK %d %d LOG %s", n[0], n[1], log)
+		got := c06RunMode(f[1], src)
+		if f[1] == "p" {
+			return got
 		}
+		// model-free metamorphic check: what the wrapped program must show follows from what the REAL code
+		// does with the plain program (same rule as the model driver's `modeResult`); it also covers the cases
+		// the model does not (UNSUP), where the correspondence itself only looks for crashes
+		if exp := c06Derive(f[1], c06RunMode("p", src)); exp != "" && exp != got {
+			return "PANIC-META mode=" + f[1] + " expected=[" + exp + "] got=[" + got + "]"
+		}
+		return got
 	case "A":
 		var vi int
 		fmt.Sscanf(f[2], "%d", &vi)
@@ -165,7 +157,126 @@ func c06Run(payload string) string {
 	return "bad-payload"
 }
 
-// c06InChild runs one case in a child process: CRASH if the process died, otherwise the first word of its class.
+var c06ControlTypes = map[string]bool{hx("End of iteration was reached"): true, hx("End of iteration step - Continue iteration"): true, hx("*** return ***"): true}
+
+func c06SplitClass(cl string) (head, log string) {
+	if i := strings.Index(cl, " LOG "); i >= 0 {
+		return cl[:i], cl[i+5:]
+	}
+	return strings.TrimSuffix(cl, " LOG"), ""
+}
+
+func c06JoinLog(parts ...string) string {
+	var p []string
+	for _, x := range parts {
+		if x != "" {
+			p = append(p, x)
+		}
+	}
+	return strings.Join(p, "|")
+}
+
+// c06Derive: the result of mode t / s / d / w from the class of the plain program ("" = no expectation).
+func c06Derive(mode, plain string) string {
+	head, log := c06SplitClass(plain)
+	m1, m2, m3 := "m"+evCanon(1.0), "m"+evCanon(2.0), "m"+evCanon(3.0)
+	isErr := strings.HasPrefix(head, "ERR")
+	switch {
+	case head == "NOPARSE" || strings.HasPrefix(head, "V"):
+		if mode == "t" {
+			return head
+		}
+		return "SINKFAIL " + head
+	case head != "OK" && !isErr:
+		return "" // HANG, PANIC …: reported anyway
+	}
+	e := 0
+	if isErr {
+		e = 1
+	}
+	switch mode {
+	case "t":
+		if f := strings.Split(head, " "); len(f) == 2 && c06ControlTypes[f[1]] {
+			return head + " LOG " + log // break / continue / return pass through try
+		}
+		if isErr {
+			return "OK LOG " + c06JoinLog(log, m1)
+		}
+		return "OK LOG " + log
+	case "s":
+		return fmt.Sprintf("SINK %d 0 LOG %s", e, c06JoinLog(log, m2))
+	case "d":
+		return fmt.Sprintf("SINKD %d LOG %s", e, c06JoinLog(m3, log))
+	case "w":
+		return fmt.Sprintf("SINKW %d %d LOG %s", e, e, c06JoinLog(log, log))
+	}
+	return ""
+}
+
+func c06CountErrs(res interface{}, k int) []int {
+	n := make([]int, k)
+	for i := range n {
+		n[i] = -1
+	}
+	if l, ok := res.([]interface{}); ok && len(l) == k {
+		for i := range n {
+			if x, ok := l[i].([]interface{}); ok {
+				n[i] = len(x)
+			}
+		}
+	}
+	return n
+}
+
+// c06RunMode runs the program plainly (p), inside try (t), as the body of a sink with a second sink on another
+// event (s), as one of TWO sinks on the same event (d: the other sink has the higher priority and marks 3), or as
+// a sink that is triggered twice (w).
+func c06RunMode(mode, src string) string {
+	sinkLog := func(out string) string { _, l := c06SplitClass(out); return l }
+	switch mode {
+	case "p":
+		_, out := c06Eval(src)
+		return c06Class(out)
+	case "t":
+		_, out := c06Eval("try {\n" + src + "\n} except {\nx.mark(1)\n}")
+		return c06Class(out)
+	case "s":
+		prog := "sink s1\n  kindmatch [\"k\"]\n{\n" + src + "\n}\nsink s2\n  kindmatch [\"k2\"]\n{\nx.mark(2)\n}\n" +
+			"r1 := addEventAndWait(\"e\", \"k\", {})\nr2 := addEventAndWait(\"e\", \"k2\", {})\n[r1, r2]"
+		res, out := c06Eval(prog)
+		if !strings.HasPrefix(out, "OK") {
+			return "SINKFAIL " + c06Class(out)
+		}
+		n := c06CountErrs(res, 2)
+		return fmt.Sprintf("SINK %d %d LOG %s", n[0], n[1], sinkLog(out))
+	case "d":
+		prog := "sink s3\n  kindmatch [\"k\"],\n  priority 1\n{\nx.mark(3)\n}\nsink s1\n  kindmatch [\"k\"],\n  priority 2\n{\n" + src + "\n}\n" +
+			"r1 := addEventAndWait(\"e\", \"k\", {})\n[r1]"
+		res, out := c06Eval(prog)
+		if !strings.HasPrefix(out, "OK") {
+			return "SINKFAIL " + c06Class(out)
+		}
+		n := c06CountErrs(res, 1)
+		return fmt.Sprintf("SINKD %d LOG %s", n[0], sinkLog(out))
+	case "w":
+		prog := "sink s1\n  kindmatch [\"k\"]\n{\n" + src + "\n}\n" +
+			"r1 := addEventAndWait(\"e\", \"k\", {})\nr2 := addEventAndWait(\"e\", \"k\", {})\n[r1, r2]"
+		res, out := c06Eval(prog)
+		if !strings.HasPrefix(out, "OK") {
+			return "SINKFAIL " + c06Class(out)
+		}
+		n := c06CountErrs(res, 2)
+		return fmt.Sprintf("SINKW %d %d LOG %s", n[0], n[1], sinkLog(out))
+	}
+	return "bad-mode"
+}
+
+// c06InChild runs one case in a child process. A dead child is classified by what the Go runtime wrote to
+// stderr, so that a different crash cannot hide in a known class:
+//
+//	CRASH so-stringify    stack overflow inside fmt's printer or stringutil's JSON conversion (known finding cyclic-container-stringify)
+//	CRASH concurrent-map  "fatal error: concurrent map …" (known finding unsynchronised-shared-container)
+//	CRASH other <text>    anything else (never predicted by the model: always a violation)
 func c06InChild(payload string, firstWord bool) string {
 	exe, err := os.Executable()
 	if err != nil {
@@ -175,6 +286,8 @@ func c06InChild(payload string, firstWord bool) string {
 	defer cancel()
 	cmd := exec.CommandContext(ctx, exe, "C06", "-one", payload)
 	cmd.Env = append(os.Environ(), "C06_CHILD=1")
+	var stderr strings.Builder
+	cmd.Stderr = &stderr
 	out, err := cmd.Output()
 	if ctx.Err() != nil {
 		return "HANG"
@@ -184,12 +297,71 @@ func c06InChild(payload string, firstWord bool) string {
 		if ee, ok := err.(*exec.ExitError); ok && (ee.ExitCode() == 3 || ee.ExitCode() == 4) && line != "" {
 			return line // HANG / PANIC reported by the child
 		}
-		return "CRASH"
+		return c06CrashClass(stderr.String())
 	}
 	if firstWord {
 		return strings.SplitN(line, " ", 2)[0]
 	}
 	return line
+}
+
+func c06CrashClass(stderr string) string {
+	switch {
+	case strings.Contains(stderr, "stack overflow") &&
+		(strings.Contains(stderr, "fmt.(*pp)") || strings.Contains(stderr, "stringutil.ConvertToJSONMarshalableObject")):
+		return "CRASH so-stringify"
+	case strings.Contains(stderr, "fatal error: concurrent map"):
+		return "CRASH concurrent-map"
+	}
+	first := ""
+	for _, l := range strings.Split(stderr, "\n") {
+		if strings.HasPrefix(l, "fatal error") || strings.HasPrefix(l, "panic") {
+			first = l
+			break
+		}
+	}
+	return "CRASH other " + oneLine(first)
+}
+
+// ---- concurrency family: one container shared by the main thread and a sink that was triggered WITHOUT waiting
+
+// variant -> (set-up, body of the sink loop, body of the main loop)
+var c06ConcVariants = map[string][3]string{
+	"forin-map":  {"m := {\"a\":1,\"b\":2}", "for [k,v] in m {\n}", "m[j % 50] := j"},
+	"del-map":    {"m := {\"a\":1,\"b\":2}", "del(m, \"a\")", "m.b := j"},
+	"len-map":    {"m := {\"a\":1,\"b\":2}", "len(m)", "m[j % 50] := j"},
+	"forin-list": {"m := [1,2,3]", "for x in m {\n}", "m[j % 3] := j"},
+	"add-list":   {"m := [1,2,3]", "add(m, 1)", "m[j % 3] := j"},
+	"del-list":   {"m := [1,2,3,4]", "len(del(m, 0))", "m := add(m, j)"},
+}
+var c06ConcNames = []string{"forin-map", "del-map", "len-map", "forin-list", "add-list", "del-list"}
+
+func c06ConcProgram(variant string, prot bool, n int) string {
+	v := c06ConcVariants[variant]
+	sinkBody, mainBody := v[1], v[2]
+	if prot {
+		sinkBody = "mutex shared {\n" + sinkBody + "\n}"
+		mainBody = "mutex shared {\n" + mainBody + "\n}"
+	}
+	return fmt.Sprintf("%s\nsink s\n  kindmatch [\"k\"]\n{\nfor i in range(1, %d) {\n%s\n}\nx.mark(1)\n}\naddEvent(\"e\", \"k\", {})\nfor j in range(1, %d) {\n%s\n}\nx.mark(2)",
+		v[0], n, sinkBody, n, mainBody)
+}
+
+func c06RunConc(f []string) string {
+	var workers, prot, n int
+	fmt.Sscanf(f[2], "%d", &workers)
+	fmt.Sscanf(f[3], "%d", &prot)
+	fmt.Sscanf(f[4], "%d", &n)
+	config.Config[config.WorkerCount] = workers
+	_, out := c06Eval(c06ConcProgram(f[1], prot == 1, n))
+	cl := c06Class(out)
+	// both markers must have been reached (order is free): compare as a set
+	if i := strings.Index(cl, " LOG "); i >= 0 {
+		marks := strings.Split(cl[i+5:], "|")
+		sort.Strings(marks)
+		cl = cl[:i+5] + strings.Join(marks, "|")
+	}
+	return cl
 }
 
 // ---------------------------------------------------------------- generator
@@ -290,22 +462,26 @@ var c06Directed = []string{
 	"setCronTrigger(1, 2, 3)", "setCronTrigger(\"* * * * * *\", [1], {})", "setPulseTrigger(\"a\", 2, 3)", "mutex a {\n1 % 0\n}", "mutex 1 {\n}", "import \"nowhere\" as n",
 }
 
+// element-level sink attributes, duplicate attributes / names, scope argument (engine semantics are not in the
+// model: these run for crashes and for the metamorphic try rule only)
+var c06SinkAttr2 = []string{
+	"sink s\n kindmatch [null, [1], fn, \"\", \"a..b\", \"*\", 1.5, {}]\n{\nx.mark(1)\n}\naddEventAndWait(\"e\", \"a..b\", {})\naddEventAndWait(\"e\", \"\", {})\naddEventAndWait(\"e\", \"x\", {})",
+	"sink s\n kindmatch [\"k\"],\n scopematch [null, [1], fn, \"\", \"a.b\", 1.5]\n{\nx.mark(1)\n}\naddEventAndWait(\"e\", \"k\", {}, {\"a.b\": true, \"\": 1, null: null})",
+	"sink s\n kindmatch [\"k\"],\n suppresses [null, [1], fn, \"s\", 1.5]\n{\nx.mark(1)\n}\naddEventAndWait(\"e\", \"k\", {})",
+	"sink s\n kindmatch [\"k\"],\n statematch {1: 2, null: 1, true: [1], 1.5: {}, fn: fn}\n{\nx.mark(1)\n}\naddEventAndWait(\"e\", \"k\", {1: 2, null: 1, true: [1], 1.5: {}, fn: fn})",
+	"sink s\n kindmatch [\"k\"],\n statematch {\"a\": [[1], {\"b\": [fn]}]}\n{\nx.mark(1)\n}\naddEventAndWait(\"e\", \"k\", {\"a\": [[1], {\"b\": [fn]}]})",
+	"sink s\n kindmatch [\"k\"],\n kindmatch [\"j\"],\n priority 1,\n priority \"x\"\n{\nx.mark(1)\n}\naddEventAndWait(\"e\", \"k\", {})",
+	"sink s\n kindmatch [\"k\"]\n{\nx.mark(1)\n}\nsink s\n kindmatch [\"k\"]\n{\nx.mark(2)\n}\naddEventAndWait(\"e\", \"k\", {})",
+	"sink s\n kindmatch [\"k\"],\n priority -1e+300\n{\nx.mark(1)\n}\nsink t\n kindmatch [\"k\"],\n priority (0/0)\n{\nx.mark(2)\n}\naddEventAndWait(\"e\", \"k\", {})",
+	"sink s\n kindmatch [\"k\"]\n{\naddEvent(\"e2\", \"j\", {\"a\": [1]})\n1 % 0\n}\nsink t\n kindmatch [\"j\"],\n statematch {\"a\": [1]}\n{\nx.mark(2)\n[1][5]\n}\naddEventAndWait(\"e\", \"k\", {})",
+	"addEventAndWait(\"e\", \"k\", {}, {null: null, 1: \"true\", \"x\": [1], fn: fn})",
+	"addEventAndWait(\"e\", \"k\", {}, 1)",
+}
+
 // the known finding: a container that contains itself is stringified
 var c06Cyclic = []string{
 	"a := [1]\na[0] := a\n\"{{a}}\"", "a := [1]\na[0] := a\nlog(a)", "a := [1]\na[0] := a\na >= \"s\"", "a := [1]\na[0] := a\n1 % a",
 	"a := {\"k\":1}\na.k := a\n\"{{a}}\"", "a := [1]\na[0] := a\ntype(a)",
-}
-
-var c06ElemAssign = regexp.MustCompile(`^\s*[abc](\[|\.)[^=]*:= (.*)$`)
-var c06ContainerVar = regexp.MustCompile(`\b[abc]\b`)
-
-func c06MayCycle(src string) bool {
-	for _, line := range strings.Split(src, "\n") {
-		if m := c06ElemAssign.FindStringSubmatch(line); m != nil && c06ContainerVar.MatchString(m[2]) {
-			return true
-		}
-	}
-	return false
 }
 
 func c06GenCases(g *Gen) {
@@ -319,7 +495,26 @@ func c06GenCases(g *Gen) {
 		c.prog("corpus", "-", src, modes)
 	}
 	for _, src := range c06Directed {
-		c.prog("directed", "-", c06Prelude+src, modes)
+		c.prog("directed", "-", c06Prelude+src, modes+"dw")
+	}
+	for _, src := range c06SinkAttr2 {
+		c.prog("sinkattr2", "-", c06Prelude+src, "pt")
+	}
+	// concurrency: a container shared by the main thread and a sink triggered without waiting
+	if c.want("conc", "-") {
+		n := 5000
+		if g.Thorough() {
+			n = 20000
+		}
+		for _, v := range c06ConcNames {
+			for _, w := range []int{1, 2, 4} {
+				for prot := 0; prot <= 1; prot++ {
+					v, w, prot := v, w, prot
+					g.Count("conc")
+					c.lazy.Emit(func() string { return fmt.Sprintf("K %s %d %d %d", v, w, prot, n) })
+				}
+			}
+		}
 	}
 	for _, src := range c06Cyclic {
 		c.prog("cyclic", "-", src, "p")
@@ -354,7 +549,7 @@ func c06GenCases(g *Gen) {
 	}
 	for _, op := range c06PreOps {
 		for _, v := range U {
-			c.prog("prefix", "-", c06Prelude+op+"("+v+")", modes)
+			c.prog("prefix", "-", c06Prelude+op+"("+v+")", modes+"dw")
 		}
 	}
 	for _, op := range c06BinOps {
@@ -427,8 +622,8 @@ func c06GenCases(g *Gen) {
 				} else if !g.Thorough() && (ix[0]+3*ix[1])%5 == int(g.Seed%5) {
 					m = "pt"
 				}
-				if name == "sleep" && len(ix) > 0 && (ix[0] == 5) {
-					return // sleep(1e+300): the conversion to a duration is platform dependent
+				if name == "sleep" && len(ix) > 0 && c06PlatformDuration[ix[0]] {
+					return // sleep(1e+300 / NaN / Inf): the conversion to a duration is platform dependent
 				}
 				emitCall(name, append([]int(nil), ix...), m)
 			})
@@ -449,7 +644,7 @@ func c06GenCases(g *Gen) {
 		for i := range ix {
 			ix[i] = g.R.Intn(len(U))
 		}
-		if name == "sleep" && ix[0] == 5 {
+		if name == "sleep" && c06PlatformDuration[ix[0]] {
 			continue
 		}
 		emitCall(name, ix, "p")
@@ -463,12 +658,6 @@ func c06GenCases(g *Gen) {
 	eg := NewEvGen(g.R, EvGenConfig{Depth: 3, Builtins: true, Interp: true, Funcs: true, Loops: true, Try: true, Malformed: 100})
 	for k := 0; k < n; k++ {
 		src := eg.Program()
-		if c06MayCycle(src) {
-			// an element assignment whose right side mentions a container variable can build a container
-			// that contains itself (through an alias): the known finding has its own directed cases
-			g.Count("random.skipped-may-cycle")
-			continue
-		}
 		c.prog("random", "-", src, "p")
 	}
 }
